@@ -1,4 +1,5 @@
 import Rustic.Lemmas.CommandTable
+import Rustic.Gen.RepositoryApi
 /-
 C15 — Append-only and dry-run modes never remove or overwrite stored data.
 
@@ -6,26 +7,31 @@ Model: `Rustic/Model/CommandTable.lean` — one row per public repository operat
 error (before any storage operation) or which kinds of storage operations it may issue, depending on
 the repository's append-only flag and the command's dry-run flag.  The theorems are exactly as good as
 the table; the traffic check (`harness/src/c15.rs`, recorded `MemBackend` log of the real commands)
-validates the table on every run.  Files are content-addressed (a write under an existing id carries the
-same bytes — the harness checks the bytes of every pre-existing file after every command).
+validates the table on every run — on plain and hot/cold repositories (`hc`: the operations of both stores
+are merged), intact and damaged.  Files are content-addressed (a write under an existing id carries the
+same bytes — the harness checks the bytes of every pre-existing file of every store after every command).
+The completeness of the table is a theorem about the CURRENT source: `Rustic.Gen.repositoryPublicFns`,
+`repositoryDryRunFns`, `dryRunOptionStructs` are regenerated from crates/core/src on every check run
+(tools/c15_api_table.py); a new public `Repository` method or dry-run flag that the table does not classify
+breaks `table_covers_api` / `dry_flags_covered`.
 -/
 namespace Rustic.Props.C15
 open Rustic.CommandTable
 
 /-- On an append-only repository no operation issues a removal of a snapshot, index or pack file. -/
-theorem append_only_no_removal (cmd : Cmd) :
-    match run true cmd with
+theorem append_only_no_removal (hc : Bool) (cmd : Cmd) :
+    match run hc true cmd with
     | .refused _ => True
     | .runs ops => ∀ op ∈ ops, op.isProtectedRemoval = false := by
-  cases h : run true cmd with
+  cases h : run hc true cmd with
   | refused e => trivial
-  | runs ops => exact run_appendOnly_no_protected_removal cmd ops h
+  | runs ops => exact run_appendOnly_no_protected_removal hc cmd ops h
 
 /-- Every operation that (on an ordinary repository) may remove a snapshot, index or pack file is refused
 on an append-only repository — with an error, before touching storage (`refused` carries no operations:
 `conforms` demands an empty operation list). -/
-theorem destructive_refused_before_storage (cmd : Cmd) (ops : List Op) (h : run false cmd = .runs ops)
-    (hd : ∃ op ∈ ops, op.isProtectedRemoval = true) : ∃ e, run true cmd = .refused e := by
+theorem destructive_refused_before_storage (hc : Bool) (cmd : Cmd) (ops : List Op) (h : run hc false cmd = .runs ops)
+    (hd : ∃ op ∈ ops, op.isProtectedRemoval = true) : ∃ e, run hc true cmd = .refused e := by
   cases cmd with
   | backup d => cases d <;> (cases h; simp [dataWrites, Op.isProtectedRemoval] at hd)
   | deleteSnapshots => exact ⟨_, rfl⟩
@@ -50,31 +56,39 @@ theorem destructive_refused_before_storage (cmd : Cmd) (ops : List Op) (h : run 
   | deleteKey => cases h; simp [Op.isProtectedRemoval] at hd
   | copyInto => cases h; simp [dataWrites, Op.isProtectedRemoval] at hd
   | mergeSnapshots => cases h; simp [dataWrites, Op.isProtectedRemoval] at hd
-  | repairHotcold d => simp [run] at h
+  | repairHotcold d =>
+    cases hc
+    · simp [run] at h
+    · cases d <;> (cases h; simp [hotcoldCopies, Op.isProtectedRemoval] at hd)
+  | prepareRestore d => cases h; simp at hd
+  | init => simp [run] at h
+  | initWithConfig b => cases h; simp [Op.isProtectedRemoval] at hd
+  | initHot => cases hc <;> (cases h; simp [Op.isProtectedRemoval] at hd)
   | readOnly => cases h; simp at hd
 
 /-- The destructive operations and the error each returns on an append-only repository. -/
-theorem destructive_commands_table :
-    run true .deleteSnapshots = .refused .repository ∧ run true .prune = .refused .appendOnly ∧
-    (∀ d, run true (.repairIndex d) = .refused .appendOnly) ∧
-    (∀ d, run true (.repairSnapshots true d) = .refused .appendOnly) ∧
-    (∀ d, run true (.rewriteSnapshots true d) = .refused .appendOnly) ∧
-    (∀ d, run true (.rewriteTrees true d) = .refused .appendOnly) ∧
-    (∀ c, c ≠ .setAppendOnly false → run true (.applyConfig c) = .refused .appendOnly) := by
+theorem destructive_commands_table (hc : Bool) :
+    run hc true .deleteSnapshots = .refused .repository ∧ run hc true .prune = .refused .appendOnly ∧
+    (∀ d, run hc true (.repairIndex d) = .refused .appendOnly) ∧
+    (∀ d, run hc true (.repairSnapshots true d) = .refused .appendOnly) ∧
+    (∀ d, run hc true (.rewriteSnapshots true d) = .refused .appendOnly) ∧
+    (∀ d, run hc true (.rewriteTrees true d) = .refused .appendOnly) ∧
+    (∀ c, c ≠ .setAppendOnly false → run hc true (.applyConfig c) = .refused .appendOnly) := by
   refine ⟨rfl, rfl, fun _ => rfl, fun _ => rfl, fun _ => rfl, fun _ => rfl, ?_⟩
-  intro c hc
-  simp [run, hc]
+  intro c hne
+  simp [run, hne]
 
 /-- A command run with its dry-run flag performs no write and no removal at all (or is refused). -/
-theorem dry_run_no_ops (appendOnly : Bool) (cmd : Cmd) (h : cmd.isDryRun = true) :
-    run appendOnly cmd = .runs [] ∨ ∃ e, run appendOnly cmd = .refused e := by
+theorem dry_run_no_ops (hc appendOnly : Bool) (cmd : Cmd) (h : cmd.isDryRun = true) :
+    run hc appendOnly cmd = .runs [] ∨ ∃ e, run hc appendOnly cmd = .refused e := by
   cases cmd <;> simp [Cmd.isDryRun] at h
   case backup d => subst h; left; rfl
   case repairIndex d => subst h; cases appendOnly <;> simp [run]
   case repairSnapshots del d => subst h; cases appendOnly <;> cases del <;> simp [run]
   case rewriteSnapshots fg d => subst h; cases appendOnly <;> cases fg <;> simp [run]
   case rewriteTrees fg d => subst h; cases appendOnly <;> cases fg <;> simp [run]
-  case repairHotcold d => right; exact ⟨_, rfl⟩
+  case repairHotcold d => subst h; cases hc <;> simp [run]
+  case prepareRestore d => left; rfl
 
 /-- Histories: along any sequence of operations that conform to the table, as long as the repository is
 marked append-only before each of them, every snapshot / index / pack file present at the start is still
@@ -83,18 +97,25 @@ theorem append_only_history_keeps_files (s : State) (es : List Exec) (h : AllApp
     (hf : f ∈ s.files) (hp : f.isProtected = true) : f ∈ (es.foldl step s).files :=
   history_keeps es s h f hf hp
 
-/-- Append-only can only be left through `apply_config(set_append_only = false)`. -/
+/-- Append-only can only be left through `apply_config(set_append_only = false)` — or by writing a new config
+over the repository with `init_with_config` (which the code does not guard: the table has that row because the
+API tie demanded a classification of the method, and the traffic check confirms it — token `reinit`). -/
 theorem append_only_left_only_by_config (s : State) (e : Exec) (hao : s.appendOnly = true)
-    (h : (step s e).appendOnly = false) : e.cmd = .applyConfig (.setAppendOnly false) := by
+    (h : (step s e).appendOnly = false) :
+    e.cmd = .applyConfig (.setAppendOnly false) ∨ e.cmd = .initWithConfig false := by
   simp only [step] at h
   cases hc : e.cmd with
   | applyConfig c =>
     cases c with
     | setAppendOnly b =>
       cases b
-      · rfl
+      · exact .inl rfl
       · simp [hc, run, hao] at h
     | other ch => simp [hc, run, hao] at h
+  | initWithConfig b =>
+    cases b
+    · exact .inr rfl
+    · simp [hc, run] at h
   | _ => simp [hc, hao] at h
 
 /-- The harness tokens: what the traffic check expects is a refusal exactly where the table refuses. -/
@@ -103,35 +124,127 @@ def aoTokens : List String :=
    "prune_plan", "repair_index", "repair_index.dry", "repair_index.readall", "repair_index.readall.dry",
    "repair_snap.delete", "repair_snap.delete.dry", "repair_snap.keep", "repair_snap.keep.dry", "rewrite.forget",
    "rewrite.forget.dry", "rewrite.keep", "rewrite.keep.dry", "rewtrees.forget", "rewtrees.forget.dry", "rewtrees.keep",
-   "rewtrees.keep.dry", "config.tg", "config.ev", "config.none", "config.ao1", "config.ao0", "key.add", "key.del",
-   "check", "restore", "hotcold", "hotcold.packs", "hotcold.dry", "hotcold.packs.dry", "copy"]
+   "rewtrees.keep.dry", "rewtrees.forget.excl", "rewtrees.forget.excl.dry", "rewtrees.keep.excl", "rewtrees.keep.excl.dry",
+   "merge", "merge.delete", "config.tg", "config.ev", "config.none", "config.ao1", "config.ao0", "key.add", "key.del",
+   "check", "restore", "readonly", "restore.plan", "restore.plan.dry", "hotcold", "hotcold.packs", "hotcold.dry",
+   "hotcold.packs.dry", "copy", "init", "reinit", "init_hot"]
 
-def refusalAgrees (ao : Bool) (tok : String) : Bool :=
-  match cmdOfToken tok, expected { appendOnly := ao } tok with
-  | some c, some (res, kinds, _) =>
-    (match run ao c with
-     | .refused .appendOnly => res == "err:AppendOnly" && kinds == "-"
-     | .refused .repository => res == "err:Repository"
-     | .runs ops => res == "ok" &&
-         -- a shown removal / write of config, key, snapshot must be allowed by the table
-         (!(kinds == "r.snapshot") || ops.contains (.remove .snapshot)) &&
-         (!(kinds == "w.snapshot") || ops.contains (.write .snapshot)) &&
-         (!(kinds == "w.config") || ops.contains (.write .config)) &&
-         (!(kinds == "w.key") || ops.contains (.write .key)) &&
-         (!(kinds == "r.key") || ops.contains (.remove .key)))
+/-- the storage operations behind a shown kinds string (`*` = not compared). -/
+def kindsOps : String → Option (List Op)
+  | "-" | "*" => some []
+  | "w.snapshot" => some [.write .snapshot]
+  | "r.snapshot" => some [.remove .snapshot]
+  | "r.snapshot+w.snapshot" => some [.remove .snapshot, .write .snapshot]
+  | "w.config" => some [.write .config]
+  | "w.key" => some [.write .key]
+  | "r.key" => some [.remove .key]
+  | _ => none
+
+def errToken : ErrKind → String
+  | .appendOnly => "err:AppendOnly"
+  | .repository => "err:Repository"
+  | .configuration => "err:Configuration"
+
+/-- the rows of a token are run in order; the first refusal is the result and everything shown was issued by the
+rows before it; without refusal the result is `ok` (`skip`: nothing to delete) and every shown kind is allowed. -/
+def rowsAgree (hc ao : Bool) : List Cmd → List Op → String → List Op → Bool
+  | [], allowed, res, shown => (res == "ok" || res == "skip") && shown.all allowed.contains
+  | c :: cs, allowed, res, shown =>
+    match run hc ao c with
+    | .refused e => res == errToken e && shown.all allowed.contains
+    | .runs ops => rowsAgree hc ao cs (allowed ++ ops) res shown
+
+def refusalAgrees (hc ao : Bool) (tok : String) : Bool :=
+  match cmdsOfToken tok, expected { appendOnly := ao, hotCold := hc } tok with
+  | some cs, some (res, kinds, _) =>
+    (match kindsOps kinds with
+     | some shown => rowsAgree hc ao cs [] res shown
+     | none => false)
   | _, _ => false
 
-theorem expected_agrees_with_table : ∀ ao, aoTokens.all (refusalAgrees ao) = true := by
+theorem expected_agrees_with_table : ∀ hc ao, aoTokens.all (refusalAgrees hc ao) = true := by
+  decide
+
+/-! ### the table is complete for the current source (API tie, regenerated on every check) -/
+
+-- Diagnostic only (the theorems below are the obligations): when the tie is broken, name the offending methods /
+-- flags in the first line of the build error, which is what `./check` prints.
+#eval show IO Unit from do
+  let api := Rustic.Gen.repositoryPublicFns
+  let unclassified := api.filter (fun n => !tableMethods.contains n)
+  let gone := tableMethods.filter (fun n => !api.contains n)
+  let dryNew := Rustic.Gen.repositoryDryRunFns.filter (fun n => !dryParamMethods.contains n) ++
+    Rustic.Gen.dryRunOptionStructs.filter (fun n => !dryFieldSites.contains n)
+  let dryGone := dryParamMethods.filter (fun n => !Rustic.Gen.repositoryDryRunFns.contains n) ++
+    dryFieldSites.filter (fun n => !Rustic.Gen.dryRunOptionStructs.contains n)
+  if !(unclassified.isEmpty && gone.isEmpty && dryNew.isEmpty && dryGone.isEmpty) then
+    throw (IO.userError s!"C15 table tie broken — public Repository methods not classified by the command table: {unclassified}; methods named by a row but gone from repository.rs: {gone}; dry_run flags without a dry-run row: {dryNew}; dry-run rows without a dry_run flag in the source: {dryGone}")
+
+/-- every public method of `Repository` in the current source is classified: a row of the table (mutating /
+destructive / dry-run capable) or the reviewed read-only list (`Cmd.methods .readOnly`). -/
+theorem table_covers_api : Rustic.Gen.repositoryPublicFns.all tableMethods.contains = true := by
+  decide
+
+/-- every method a row names exists in the current source, and no method is claimed by two rows. -/
+theorem table_rows_exist :
+    tableMethods.all Rustic.Gen.repositoryPublicFns.contains = true ∧ tableMethods.Nodup := by
+  decide
+
+/-- `allCmds` has a representative of every row (a new `Cmd` constructor must be given `methods` and be listed). -/
+theorem allCmds_complete (c : Cmd) : ∃ c' ∈ allCmds, c'.methods = c.methods := by
+  cases c <;> simp [allCmds, Cmd.methods]
+
+/-- every dry-run flag of the current source belongs to a row with a dry-run flag, and vice versa: the methods with a
+`dry_run: bool` parameter are exactly those of the rows marked `.param`, the option structs with a `pub dry_run`
+field are exactly the `.field` sites; a row has a dry-run flag in the table iff it has such a source. -/
+theorem dry_flags_covered :
+    Rustic.Gen.repositoryDryRunFns.all dryParamMethods.contains = true ∧
+    dryParamMethods.all Rustic.Gen.repositoryDryRunFns.contains = true ∧
+    Rustic.Gen.dryRunOptionStructs.all dryFieldSites.contains = true ∧
+    dryFieldSites.all Rustic.Gen.dryRunOptionStructs.contains = true ∧
+    (∀ c : Cmd, c.isDryRun = true → c.drySource.isSome = true) := by
+  refine ⟨by decide, by decide, by decide, by decide, ?_⟩
+  intro c h
+  cases c <;> simp_all [Cmd.isDryRun, Cmd.drySource]
+
+/-- a `c15 dryt` scenario is well formed: the token is a dry-run row, the twin's expectation exists, and every
+operation the twin is expected to issue is allowed by the table for the non-dry row (or the twin is refused). -/
+def twinOk (d tok : String) : Bool :=
+  match cmdOfToken tok, dryTwin d tok with
+  | some c, some (res, ops) =>
+    c.isDryRun &&
+    (match run (isHotColdDamage d) false c.nonDry with
+     | .refused e => res == errToken e && ops.isEmpty
+     | .runs allowed => res == "ok" && ops.all allowed.contains)
+  | _, _ => false
+
+/-- the twin really wrote or removed something (the dry-run oracle was meaningful for that row). -/
+def twinEffective (c : Cmd) (d tok : String) : Bool :=
+  match cmdOfToken tok, dryTwin d tok with
+  | some c', some (_, ops) => c'.isDryRun && c'.methods == c.methods && !ops.isEmpty
+  | _, _ => false
+
+/-- Every dry-run flag is exercised by the traffic check on a repository where the same command WITHOUT the flag
+writes or removes something (`prepare_restore` excepted: it never touches the repository, with or without the flag),
+and on hot/cold repositories too for the rows that can run there; every scenario's twin conforms to the table. -/
+theorem every_dry_flag_has_effective_twin :
+    dryTwinCases.all (fun p => twinOk p.1 p.2) = true ∧
+    (allCmds.filter (fun c => c.drySource.isSome && c != .prepareRestore false)).all
+      (fun c => dryTwinCases.any (fun p => twinEffective c p.1 p.2) &&
+                dryTwinCases.any (fun p => isHotColdDamage p.1 && twinEffective c p.1 p.2)) = true := by
   decide
 
 /-! ### non-vacuity -/
-example : run true .prune = .refused .appendOnly := rfl
-example : run false .prune = .runs [.write .pack, .write .index, .remove .index, .remove .pack] := rfl
-example : AllAppendOnly ⟨true, [⟨.snapshot, 1⟩, ⟨.pack, 2⟩]⟩
+example : run false true .prune = .refused .appendOnly := rfl
+example : run true false .prune = .runs [.write .pack, .write .index, .remove .index, .remove .pack] := rfl
+example : run true true (.repairHotcold false) = .runs hotcoldCopies := rfl
+example : "merge_snapshots" ∈ tableMethods ∧ "get_all_snapshots" ∈ tableMethods ∧ "frobnicate" ∉ tableMethods := by decide
+example : (step ⟨true, [], false⟩ ⟨.initWithConfig false, []⟩).appendOnly = false := rfl
+example : AllAppendOnly ⟨true, [⟨.snapshot, 1⟩, ⟨.pack, 2⟩], true⟩
     [⟨.backup false, [.write ⟨.pack, 3⟩, .write ⟨.index, 4⟩, .write ⟨.snapshot, 5⟩]⟩, ⟨.prune, []⟩,
      ⟨.rewriteSnapshots false false, [.write ⟨.snapshot, 6⟩]⟩] := by
   decide
-example : ¬ AllAppendOnly ⟨true, [⟨.snapshot, 1⟩]⟩ [⟨.deleteSnapshots, [.remove ⟨.snapshot, 1⟩]⟩] := by
+example : ¬ AllAppendOnly ⟨true, [⟨.snapshot, 1⟩], false⟩ [⟨.deleteSnapshots, [.remove ⟨.snapshot, 1⟩]⟩] := by
   decide
 
 end Rustic.Props.C15
